@@ -107,6 +107,44 @@ def with_exit_offsets(code):
     return frozenset(out)
 
 
+def package_code_objects(package):
+    """All code objects defined in an installed package (e.g. 'baseband'): used by the deep
+    reader scenario, where pre-emption reaches into the dependency that does the file I/O."""
+    import importlib
+    mod = importlib.import_module(package)
+    root = os.path.dirname(os.path.realpath(mod.__file__)) + os.sep
+    seen = set()
+
+    def collect(obj):
+        if isinstance(obj, types.CodeType):
+            if obj in seen or obj.co_filename.startswith("<") \
+                    or not os.path.realpath(obj.co_filename).startswith(root):
+                return
+            seen.add(obj)
+            for c in obj.co_consts:
+                if isinstance(c, types.CodeType):
+                    collect(c)
+        elif isinstance(obj, types.FunctionType):
+            collect(obj.__code__)
+        elif isinstance(obj, property):
+            for g in (obj.fget, obj.fset, obj.fdel):
+                if g is not None:
+                    collect(g)
+        elif isinstance(obj, (classmethod, staticmethod)):
+            collect(obj.__func__)
+        elif isinstance(obj, type) and getattr(obj, "__module__", "").startswith(package):
+            for v in list(vars(obj).values()):
+                collect(v)
+        elif hasattr(obj, "fget") and callable(getattr(obj, "fget", None)):      # lazyproperty
+            collect(obj.fget)
+
+    for name, m in list(sys.modules.items()):
+        if (name == package or name.startswith(package + ".")) and m is not None:
+            for v in list(vars(m).values()):
+                collect(v)
+    return seen
+
+
 class LineMonitor:
     """One sys.monitoring tool with LINE events on a fixed set of code objects.
 
@@ -119,10 +157,11 @@ class LineMonitor:
     the last one delivered for that activation, which makes the delivered sequence a
     function of the executed code path only."""
 
-    def __init__(self, tool_id, name, subpaths=None):
+    def __init__(self, tool_id, name, subpaths=None, packages=()):
         self.tool_id = tool_id
         self.name = name
         self.subpaths = subpaths
+        self.packages = tuple(packages)
         self.callback = None
         self.installed = False
         self.tls = threading.local()
@@ -134,7 +173,9 @@ class LineMonitor:
             _mon.use_tool_id(self.tool_id, self.name)
         except ValueError:
             pass
-        self.codes = pulsarbat_code_objects(self.subpaths)
+        self.codes = set(pulsarbat_code_objects(self.subpaths))
+        for pkg in self.packages:
+            self.codes |= package_code_objects(pkg)
         self.skip = {c: with_exit_offsets(c) for c in self.codes}
         ev = _mon.events
         _mon.register_callback(self.tool_id, ev.LINE, self._line)
@@ -250,10 +291,10 @@ def get_instruction_monitor():
     return m
 
 
-def get_monitor(key, tool_id, subpaths=None):
+def get_monitor(key, tool_id, subpaths=None, packages=()):
     m = _TOOLS.get(key)
     if m is None:
-        m = LineMonitor(tool_id, f"pbverif-{key}", subpaths)
+        m = LineMonitor(tool_id, f"pbverif-{key}", subpaths, packages)
         _TOOLS[key] = m
     m.install()
     return m
